@@ -182,6 +182,16 @@ pub fn run(ctx: &mut Ctx) {
         let t = Tree::Obj(vec![(s.clone(), Tree::Arr(vec![Tree::Str(s.clone()), Tree::Num(Num::U(swept))]))]);
         check_one(ctx, &t);
     }
+    // the ASCII range once more, each character on its own (a string that needs exactly one
+    // escape and nothing else takes other branches than one that needs several)
+    if ctx.shard == 0 {
+        for cp in 0u32..0x80 {
+            let c = char::from_u32(cp).unwrap();
+            for s in [c.to_string(), format!("a{}", c), format!("{}{}", c, c)] {
+                check_one(ctx, &Tree::Arr(vec![Tree::Str(s.clone()), Tree::Obj(vec![(s, Tree::Null)])]));
+            }
+        }
+    }
     ctx.count_n("codepoints.swept(as key and value)", swept);
     ctx.exhaustive.insert(format!("all Unicode scalar values below {:#x} as key and as value", limit), true);
 
